@@ -78,7 +78,8 @@ def build_scenario(rng, payloads, attacker_authorized):
         idx = max(i for i, l in enumerate(out) if l.startswith("connect 1"))
         out.insert(idx + 1, "authorize 1")
     # inject in bursts before server frames in the second half
-    frames = [i for i, l in enumerate(out) if l.startswith("sframe")]
+    first_conn = min([i for i, l in enumerate(out) if l.startswith("connect 0")] or [0])
+    frames = [i for i, l in enumerate(out) if l.startswith("sframe") and i > first_conn]
     frames = frames[len(frames) // 3:] or frames
     per = max(1, len(payloads) // max(1, len(frames)))
     res, pi = [], 0
